@@ -31,7 +31,8 @@ pub struct RunResult {
     pub log_hash: u64,
     pub steps: u64,
     pub log: Vec<String>,
-    pub sign_calls: Vec<u64>,
+    /// signing calls per node and key slot
+    pub sign_calls: Vec<Vec<u64>>,
 }
 
 pub fn flavour() -> &'static str {
@@ -58,7 +59,7 @@ pub fn exec(nodes: &[NodeSpec], events: &[Event], seed: u64, prop: &str, keep_lo
     for ev in events {
         w.apply(ev);
     }
-    let sign_calls = (0..w.nodes.len()).map(|i| w.nodes[i].sign_calls(0)).collect();
+    let sign_calls = (0..w.nodes.len()).map(|i| (0..3u8).map(|sl| w.nodes[i].sign_calls(sl)).collect()).collect();
     let fired: u64 = (0..w.nodes.len()).map(|i| w.nodes[i].faults_fired()).sum();
     w.cx.stat_n("fault:signer-failure-fired", fired);
     enr::verif_hooks::seed_signing_rng(None);
@@ -98,7 +99,7 @@ pub fn run_seeded(prop: &str, seed: u64, thorough: bool, keep_log: bool) -> (Tra
     let tail = Event::Tail;
     w.apply(&tail);
     events.push(tail);
-    let sign_calls = (0..w.nodes.len()).map(|i| w.nodes[i].sign_calls(0)).collect();
+    let sign_calls = (0..w.nodes.len()).map(|i| (0..3u8).map(|sl| w.nodes[i].sign_calls(sl)).collect()).collect();
     let fired: u64 = (0..w.nodes.len()).map(|i| w.nodes[i].faults_fired()).sum();
     w.cx.stat_n("fault:signer-failure-fired", fired);
     enr::verif_hooks::seed_signing_rng(None);
